@@ -121,6 +121,30 @@ def mapping_writes(res):
     return out
 
 
+def header_method_writes(ctx, res):
+    """Calls, in an evaluated open function, of a `sealed::Header` trait method on the mapped header (opaque there: H is generic) whose implementation for the
+    sync or the unsync header stores into the header - a plain store through `self`, a non-load atomic, or a raw write. The implementations are read on every run."""
+    out = []
+    for e in res.log:
+        if e["kind"] != "call" or not e.get("opaque"):
+            continue
+        m = re.match(r"^sealed::Header::(\w+)$", e["callee"])
+        if not m or not e["args"]:
+            continue
+        impls = ctx.facts.find(r"^<(?:un)?sync::sealed::Header as sealed::Header>::%s$" % m.group(1))
+        if not impls:
+            continue
+        for ib in impls:
+            iev, ires = ctx.eval(ib)
+            bad = [x for x in ires.log if is_raw_write(x) or is_atomic_write(x) or is_heap_store(x) or (x["kind"] == "call" and x.get("atomic") == "get_mut")]
+            if bad:
+                f = dict(e)
+                f["effect"] = "header method %s (%s stores into the header)" % (m.group(1), ib.path)
+                out.append((e, f))
+                break
+    return out
+
+
 @rule("C09-Op2", "C09", 4, "map_mut_in: every write into the mapping happens either on the create_new path or after check_capacity and "
       "sanity_check have succeeded (a refused open leaves the file's bytes untouched)", configs=MEMCFG, also=("C05", "C06",))
 def op2(ctx):
@@ -133,7 +157,7 @@ def op2(ctx):
         yield Ob(key_of("C09-Op2", b.path, "anchors"), False, "expected one sanity_check and one check_capacity call (found %d, %d)" % (len(san), len(cc)), b.loc())
         return
     san_ok, cc_ok = success_fact(res, san[0]), success_fact(res, cc[0])
-    ws = mapping_writes(res)
+    ws = mapping_writes(res) + [f for _e, f in header_method_writes(ctx, res)]
     n = 0
     for e in ws:
         fs = ctx.facts_of(ev, e)
@@ -155,7 +179,7 @@ def op2(ctx):
 def op2r(ctx):
     b = ctx.facts.one(r"^memory::Memory::<R, PR, H>::map_in::\{closure#0\}$")
     ev, res = ctx.eval(b, no_inline=(r"::mlock$",))
-    ws = mapping_writes(res)
+    ws = mapping_writes(res) + [f for _e, f in header_method_writes(ctx, res)]
     yield Ob(key_of("C09-Op2r", b.path, "no-write"), not ws, "read-only open writes nothing into the mapping (%d write effects)" % len(ws), b.loc(), {"writes": [ctx.loc(e) for e in ws][:3]})
     san = [e for e in res.log if e["kind"] == "call" and e["callee"] == "sanity_check"]
     cc = [e for e in res.log if e["kind"] == "call" and e["callee"] == "memory::check_capacity"]
